@@ -125,9 +125,13 @@ def worker(args):
             sheets, rows = S.gen_index_workbook(rng)
         bump("generated." + kind)
         if sheets is not None:
-            res = compile_index(sheets)
+            res, per_flow = compile_tie.trace_index(sheets)
             key = json.dumps(sheets, sort_keys=True)
             given = set()
+            verdict, detail = compile_tie.compare_index(drv, res, per_flow)
+            bump("model_tie_index." + verdict)
+            if verdict == "disagree":
+                ties.append({"csv": key, "detail": detail})
         else:
             # T2: the real parser is traced and the Lean compiler model (Rpft/Compile.lean) is run on
             # the same event sequence; outputs must be equal up to invented identifiers
@@ -207,7 +211,7 @@ def run(ck: core.Check):
     )
     ck.assumptions = ["'compiles without reporting an error' = no exception and no log record ≥ ERROR in library mode"]
     ck.partial_gap = ["compile_closed (closure of the Lean compiler model's output for ALL event sequences) is not proved; closure is decided per explored output by the verified procedure, and the compiler model is tied to the real parser by exact comparison on every generated sheet",
-                      "insert_as_block, UI positions and action content are outside the compiler model (Compile.lean header)"]
+                      "UI positions, action content and group/flow uuid assignment are outside the compiler model (Compile.lean header); insert_as_block is modelled as a nested parser over the shared arena"]
     drv = core.Driver()
 
     # known-finding stream
